@@ -156,3 +156,31 @@ M("c20-unregister-pickle", "C20", "C20/PICKLE",
   ("timezone/zoneinfo.py", "copyreg.pickle(rrule, pickle_rrule_with_cache)", "pass"))
 M("c20-twin-extend", "C20", "silent",
   (C, "result += subcomponent._walk(name, select)", "result.extend(subcomponent._walk(name, select))"))
+
+# ---------------------------------------------------------------- C07
+M("c07-escape-swap-backslash-semicolon", "C07", "C07/FST",
+  (P, "               .replace('\\\\', '\\\\\\\\')\\\n               .replace(';', r'\;')\\\n",
+      "               .replace(';', r'\;')\\\n               .replace('\\\\', '\\\\\\\\')\\\n"))
+M("c07-escape-drop-comma", "C07", "C07/FST",
+  (P, "               .replace(',', r'\\,')\\\n", ""))
+M("c07-escape-drop-lf", "C07", "C07/FST-RANGE",
+  (P, "               .replace('\\r\\n', r'\\n')\\\n               .replace('\\n', r'\\n')",
+      "               .replace('\\r\\n', r'\\n')"))
+M("c07-unescape-swap-last-two", "C07", "C07/FST",
+  (P, "                   .replace('\\\;', ';')\\\n                   .replace('\\\\\\\\', '\\\\')\n    elif",
+      "                   .replace('\\\\\\\\', '\\\\')\\\n                   .replace('\\\;', ';')\n    elif"))
+M("c07-unescape-bytes-differs", "C07", "C07/FST-CODEC",
+  (P, "                   .replace(b'\\\\,', b',')\\\n", ""))
+M("c07-placeholder-collision", "C07", "C07/FST",
+  (P, ".replace(r'\;', '%3B').replace(r'\\\\', '%5C')", ".replace(r'\;', '%3B').replace(r'\\\\', '%3A')"))
+M("c07-unescape-string-drop", "C07", "C07/FST",
+  (P, "    return val.replace('%2C', ',').replace('%3A', ':')\\\n              .replace('%3B', ';').replace('%5C', '\\\\')",
+      "    return val.replace('%2C', ',').replace('%3A', ':')\\\n              .replace('%3B', ';')"))
+M("c07-category-join-semicolon", "C07", "C07/FST-LIST",
+  (PR, '        return b",".join([c.to_ical() for c in self.cats])', '        return b";".join([c.to_ical() for c in self.cats])'))
+M("c07-category-items-raw", "C07", "C07/FST-LIST",
+  (PR, "        self.cats = [vText(c) for c in c_list]", "        self.cats = [vUri(c) for c in c_list]"))
+M("c07-vtext-no-unescape", "C07", "C07/",
+  (PR, "        ical_unesc = unescape_char(ical)\n        return cls(ical_unesc)", "        return cls(ical)"))
+M("c07-twin-rename", "C07", "silent",
+  (PR, "        ical_unesc = unescape_char(ical)\n        return cls(ical_unesc)", "        return cls(unescape_char(ical))"))
